@@ -243,6 +243,15 @@ func check(c Case) *core.Violation {
 		}
 		outs[i] = o
 	}
+	if mentionsUnknownVar(c) {
+		// An unknown value flows (or may flow) through the evaluation.  cty compares the
+		// attributes of two objects in Go map order and stops at the first unknown or
+		// unequal one, so {a = 1, b = unknown} == {a = 2, b = 3} is false or unknown from
+		// run to run; neither values nor error-ness are reproducible.  What remains is:
+		// every printing parses (checked in run) and evaluation does not panic (core.Guard).
+		last.ref, last.why = "unknown-involved", ""
+		return nil
+	}
 	hazard := x.StripTokenHazard(c.Root)
 	const hazardSig = "strip-marker|token-level-trim|dollar-blanks-newline-before-tilde"
 	// (1) metamorphic
@@ -287,6 +296,30 @@ func check(c Case) *core.Violation {
 		}
 	}
 	return nil
+}
+
+// mentionsUnknownVar: the root or a function body names a variable whose value is unknown.
+func mentionsUnknownVar(c Case) bool {
+	unk := map[string]bool{}
+	for _, v := range c.Vars {
+		if v.V.T == "unknownof" {
+			unk[v.Name] = true
+		}
+	}
+	if len(unk) == 0 {
+		return false
+	}
+	found := false
+	f := func(n *x.Node) {
+		if n.K == x.KVar && unk[n.Name] {
+			found = true
+		}
+	}
+	x.Walk(c.Root, f)
+	for i := range c.Funcs {
+		x.Walk(c.Funcs[i].Body, f)
+	}
+	return found
 }
 
 func kindOf(mode string) string {
@@ -506,6 +539,13 @@ func classify(c Case) core.Class {
 	if c.Probe != "" {
 		cl.Labels = append(cl.Labels, "class:probe-"+c.Probe)
 	}
+	vt := map[string]bool{}
+	for _, v := range c.Vars {
+		vt[v.V.Class()] = true
+	}
+	for k := range vt {
+		cl.Labels = append(cl.Labels, "var-type:"+k)
+	}
 	cl.Labels = append(cl.Labels, "fault:"+fault, "depth:"+db, "nvars:"+fmt.Sprint(len(c.Vars)), "nfuncs:"+fmt.Sprint(len(c.Funcs)))
 	if mixed {
 		cl.Labels = append(cl.Labels, "mixed-precedence")
@@ -545,12 +585,12 @@ func faultClass(k string) string {
 	return k
 }
 
-const ruleCommon = "environment of 0-6 variables (numbers incl. dyadic fractions and 2^40, strings incl. numeric/boolean-looking and non-ASCII, bools, nulls, tuples, lists, objects, maps), 0-3 functions defined through ext/userfunc blocks (may call earlier ones, variadic, closures over the variables) plus tryfunc try/can; a typed tree of depth<=6 over literals, variables, unary/binary arithmetic, comparison, equality across types, logic, conditional (same-typed, null, string-unification branches), tuple/object constructors (keys as bare literal name incl. true/false/null/if/for, quoted literal, number, operator expression, (k), \"${k}\", \"${k}x\", \"x${k}\", \"${k.a}\", heredoc-able \"${k}\\n\" with k a variable / for iterator / undefined name / null / keyword / non-primitive; selector variables named like one field and valued like another), index (literal, computed, string key, by variable obj[b] vs obj.b), attribute, attribute-only and full splat (incl. traversal inside the splat vs applied to its result, splat of null / single value / list), for-expressions (tuple and object form, key+value variables, if, grouping), calls (incl. argument expansion), templates (literal, ${}, %{if/else}, %{for}, ~ strip markers, passthrough of a single interpolation); with probability 0.35 one node is replaced by an ill-typed variant (16 kinds: ill-typed operator, undefined variable/function, missing attribute, index out of range / negative / fractional / into a primitive, duplicate key without grouping, null or non-primitive in a template, null operand, wrong arity, for over a primitive, non-boolean condition, bad expansion); about 0.4% of the expression roots are a fixed-shape probe (for-expression whose if clause holds a conditional that unifies only for the real key type) that meets the known early-condition-check finding. Every tree is printed 2-3 times: canonical minimal spelling and random spellings (redundant parentheses, spacing, tabs, newlines and # // /* */ comments where insignificant, ':' vs '=' and newline vs comma in object constructors, trailing commas, x.0 vs x[0], .* vs [*], number spellings 1e3 / 2.50 / 25e-1, \\xHH byte escapes (the fork's own escape), quoted vs heredoc vs flush heredoc with extra indentation). Oracle: all printings RawEqual and same error-ness; reference evaluator (exact rationals) says value => no error diagnostic and same value+type; says error => error diagnostic; trees leaving the documented semantics (README.md) are checked metamorphically only. Non-trivial: an operator with an unparenthesised operand of another precedence level in the minimal spelling, or a for-expression / splat / template directive; distinct = (feature set: operators, conditional, access/splat, for, call, template | depth bucket | fault kind | set of printing modes)"
+const ruleCommon = "environment of 0-6 variables (numbers incl. dyadic fractions and 2^40, strings incl. numeric/boolean-looking and non-ASCII, bools, tuples, objects, cty lists / maps / sets of primitives, of objects, nested and empty, nulls of every type, unknown values), 0-3 functions defined through ext/userfunc blocks (may call earlier ones, variadic, closures over the variables) plus tryfunc try/can; a typed tree of depth<=6 over literals, variables, unary/binary arithmetic, comparison, equality across types, logic, conditional (same-typed, null, string-unification branches), tuple/object constructors (keys as bare literal name incl. true/false/null/if/for, quoted literal, number, operator expression, (k), \"${k}\", \"${k}x\", \"x${k}\", \"${k.a}\", heredoc-able \"${k}\\n\" with k a variable / for iterator / undefined name / null / keyword / non-primitive; selector variables named like one field and valued like another), index (literal, computed, string key, by variable obj[b] vs obj.b), attribute, attribute-only and full splat (incl. traversal inside the splat vs applied to its result, splat of null / single value / list), for-expressions (tuple and object form, key+value variables, if, grouping), calls (incl. argument expansion), templates (literal, ${}, %{if/else}, %{for}, ~ strip markers, passthrough of a single interpolation); with probability 0.35 one node is replaced by an ill-typed variant (16 kinds: ill-typed operator, undefined variable/function, missing attribute, index out of range / negative / fractional / into a primitive, duplicate key without grouping, null or non-primitive in a template, null operand, wrong arity, for over a primitive, non-boolean condition, bad expansion); about 0.4% of the expression roots are a fixed-shape probe (for-expression whose if clause holds a conditional that unifies only for the real key type) that meets the known early-condition-check finding. Every tree is printed 2-3 times: canonical minimal spelling and random spellings (redundant parentheses, spacing, tabs, newlines and # // /* */ comments where insignificant, ':' vs '=' and newline vs comma in object constructors, trailing commas, x.0 vs x[0], .* vs [*], number spellings 1e3 / 2.50 / 25e-1, \\xHH byte escapes (the fork's own escape), quoted vs heredoc vs flush heredoc with extra indentation). Oracle: all printings RawEqual and same error-ness; reference evaluator (exact rationals) says value => no error diagnostic and same value+type; says error => error diagnostic; trees leaving the documented semantics (README.md) are checked metamorphically only. Non-trivial: an operator with an unparenthesised operand of another precedence level in the minimal spelling, or a for-expression / splat / template directive; distinct = (feature set: operators, conditional, access/splat, for, call, template | depth bucket | fault kind | set of printing modes)"
 
 var assumptions = []string{
 	"number literals are integers or dyadic fractions so that cty's 512-bit floats are exact; results needing more than 300 bits, non-dyadic quotients, division by zero, modulo outside naturals are not compared with the reference",
 	"string->number conversion is asserted only for strict decimal strings, string->bool only for \"true\"/\"false\"",
-	"no unknown values, no marks, no sets in the environment",
+	"no marks; when an unknown variable is named anywhere in the case only 'parses, no panic' is asserted (cty's object equality with unknown attributes depends on Go map order); order-sensitive results over sets with >1 element, splats of sets / null sequences: metamorphic only",
 	"strip markers are generated only next to whitespace runs with at most one newline which ends the run (otherwise the per-line tokenisation of heredocs and the single token of quoted strings give different readings of 'the adjacent literal')",
 	"errors in an unselected conditional branch, null arguments to user functions, duplicate keys in an object constructor, equality of collections containing untyped nulls: metamorphic oracle only",
 }
